@@ -16,10 +16,10 @@ import (
 // that block's contents; re-executing block 2 from there gives the app hash an uninterrupted node
 // computes, and the same contents.
 func VerifC07() {
-	disk := modelkv.NewDB()
+	disk := modelkv.NewUnorderedDB()
 	ref := mwNewRef()
 	// an uninterrupted twin, for the expected commit ids
-	count := modelkv.NewCrashDB(modelkv.NewDB(), -1) // (never crashes; counts the durable writes)
+	count := modelkv.NewCrashDB(modelkv.NewUnorderedDB(), -1) // (never crashes; counts the durable writes)
 	twin := mwMustOpen(count)
 	rs := mwMustOpen(disk)
 	b1 := mwBlock(1)
